@@ -74,6 +74,8 @@ var allSpecs = []HarnessSpec{
 	{Prop: "C19", Pkg: "args", Func: "ZZ_C19_Get", Replay: "native", Twin: true},
 	{Prop: "C19", Pkg: "args", Func: "ZZ_C19_Parse", Replay: "native", Twin: true},
 	{Prop: "C19", Pkg: "args", Func: "ZZ_C19_Dialect", Replay: "native", Twin: true},
+	{Prop: "C19", Pkg: "args", Func: "ZZ_C19_Forward", Replay: "native", Twin: true, Params: map[string]int{"__tmplsym": 1}},
+	{Prop: "C19", Pkg: "cmd/task", Func: "ZZ_C19_CLI", Replay: "native", ReplayPkg: "args", ReplayFunc: "ZZ_C19_CLI_native", Twin: true, Params: map[string]int{"__tmplsym": 1}},
 	{Prop: "C19", Pkg: "cmd/task", Func: "ZZ_C19_Init", Replay: "native", ReplayPkg: "args", ReplayFunc: "ZZ_C19_Init_native", Twin: true},
 }
 
